@@ -50,16 +50,19 @@ Proof.
 Qed.
 
 Lemma data_from_union_wf c dws sk inc id fs d :
-  data_from_union c dws sk inc id fs = Ok d -> wf_data d /\ d_shape d = ShUnion.
+  data_from_union c dws sk inc id fs = Ok d -> wf_data d /\ d_shape d = ShUnion /\ d_is_variant d = false.
 Proof.
   unfold data_from_union. intros H.
   destruct (match fs with [] => negb inc | _ => false end); [discriminate|].
-  inv_bind H. inversion H; subst. unfold wf_data; cbn. split; congruence.
+  inv_bind H. inversion H; subst. unfold wf_data; cbn. repeat split; congruence.
 Qed.
 
 (* ---- the parsed pieces of an accepted item ---- *)
 Definition raw_is_union (r : raw_item) : bool := match ri_kind r with KUnion _ => true | _ => false end.
 Definition raw_is_enum (r : raw_item) : bool := match ri_kind r with KEnum _ => true | _ => false end.
+
+Definition found_inc_of (ia : item_attrs) (it : item) : bool :=
+  it_incomparable ia || existsb d_incomparable (match it with IEnum _ _ _ vs => vs | IItem _ => [] end).
 
 Lemma from_input_inv c r i :
   from_input c r = Ok i ->
@@ -68,9 +71,13 @@ Lemma from_input_inv c r i :
   match ri_kind r with
   | KStruct sh fs => exists d, data_from_struct c (it_dws ia) (it_skip_inner ia) (it_incomparable ia) (ri_name r) sh fs = Ok d /\ in_item i = IItem d
   | KUnion fs => exists d, data_from_union c (it_dws ia) (it_skip_inner ia) (it_incomparable ia) (ri_name r) fs = Ok d /\ in_item i = IItem d
-  | KEnum rvs => exists disc vs, mapM (data_from_variant c (ri_name r) (it_dws ia)) rvs = Ok vs /\
-                                 (if c_nightly c then Ok DSingle else discriminant_parse (ri_attrs r) rvs) = Ok disc /\
-                                 in_item i = IEnum disc (ri_name r) (it_incomparable ia) vs
+  | KEnum rvs => exists disc vs fd fi,
+                   mapM (data_from_variant c (ri_name r) (it_dws ia)) rvs = Ok vs /\
+                   (if c_nightly c then Ok DSingle else discriminant_parse (ri_attrs r) rvs) = Ok disc /\
+                   check_variants (it_incomparable ia) vs false (it_incomparable ia) = Ok (fd, fi) /\
+                   negb fd && existsb (fun d : dw => dw_contains d Default) (it_dws ia) = false /\
+                   negb fd && negb fi && forallb (fun v : data => match d_fields v with [] => true | _ :: _ => false end) vs = false /\
+                   in_item i = IEnum disc (ri_name r) (it_incomparable ia) vs
   end.
 Proof.
   unfold from_input, raw_is_enum, raw_is_union. intros H. inv_bind H. exists a. split; [reflexivity|].
@@ -79,10 +86,10 @@ Proof.
   inversion H; subst; cbn. repeat split.
   destruct (ri_kind r).
   - inv_bind Hb0. inversion Hb0; subst. eauto.
-  - inv_bind Hb0. inv_bind Hb0. inv_bind Hb0. destruct a2.
-    destruct (negb b && existsb (fun d : dw => dw_contains d Default) (it_dws a)); [discriminate|].
-    destruct (negb b && negb b0 && forallb (fun v : data => match d_fields v with [] => true | _ :: _ => false end) a1); [discriminate|].
-    inversion Hb0; subst. eauto.
+  - inv_bind Hb0. inv_bind Hb0. inv_bind Hb0. destruct a2 as [fd fi'].
+    destruct (negb fd && existsb (fun d : dw => dw_contains d Default) (it_dws a)) eqn:E1; [discriminate|].
+    destruct (negb fd && negb fi' && forallb (fun v : data => match d_fields v with [] => true | _ :: _ => false end) a1) eqn:E2; [discriminate|].
+    inversion Hb0; subst. exists a0, a1, fd, fi. repeat split; assumption.
   - inv_bind Hb0. inversion Hb0; subst. eauto.
 Qed.
 
@@ -90,12 +97,12 @@ Theorem from_input_wf c r i : from_input c r = Ok i -> wf_item (in_item i).
 Proof.
   intros H. destruct (from_input_inv c r i H) as [ia [_ [_ [_ K]]]].
   destruct (ri_kind r).
-  - destruct K as [d [Hd ->]]. apply data_from_struct_wf in Hd. split; cbn; auto. constructor; [tauto | constructor].
-  - destruct K as [disc [pvs [Hvs [_ ->]]]]. apply mapM_Forall2 in Hvs.
+  - destruct K as [d [Hd ->]]. apply data_from_struct_wf in Hd. split; cbn; [|tauto]. constructor; [tauto | constructor].
+  - destruct K as [disc [pvs [fd [fi [Hvs [_ [_ [_ [_ ->]]]]]]]]]. apply mapM_Forall2 in Hvs.
     split; cbn.
     + eapply Forall2_Forall_r; [exact Hvs|]. cbn. intros x y Hxy. apply data_from_variant_wf in Hxy. tauto.
     + eapply Forall2_Forall_r; [exact Hvs|]. cbn. intros x y Hxy. apply data_from_variant_wf in Hxy. tauto.
-  - destruct K as [d [Hd ->]]. apply data_from_union_wf in Hd. split; cbn; auto. constructor; [tauto | constructor].
+  - destruct K as [d [Hd ->]]. apply data_from_union_wf in Hd. split; cbn; [|tauto]. constructor; [tauto | constructor].
 Qed.
 
 Lemma from_input_union c r i :
@@ -104,8 +111,8 @@ Proof.
   intros H. destruct (from_input_inv c r i H) as [ia [_ [_ [_ K]]]]. unfold raw_is_union.
   destruct (ri_kind r).
   - destruct K as [d [Hd ->]]. apply data_from_struct_wf in Hd. cbn. destruct (d_shape d); tauto.
-  - destruct K as [disc [pvs [_ [_ ->]]]]. reflexivity.
-  - destruct K as [d [Hd ->]]. apply data_from_union_wf in Hd. cbn. destruct Hd as [_ ->]. reflexivity.
+  - destruct K as [disc [pvs [fd [fi [_ [_ [_ [_ [_ ->]]]]]]]]]. reflexivity.
+  - destruct K as [d [Hd ->]]. apply data_from_union_wf in Hd. cbn. destruct Hd as [_ [-> _]]. reflexivity.
 Qed.
 
 (* ---- traits on unions ---- *)
@@ -175,4 +182,56 @@ Proof.
   rewrite U in Hia. apply item_attrs_union in Hia. rewrite Edws in Hw.
   rewrite Forall_forall in Hia. specialize (Hia w Hw). unfold dw_union_ok in Hia.
   rewrite Forall_forall in Hia. auto.
+Qed.
+
+(* ---- Default: exactly one `default` variant ---- *)
+Lemma check_variants_count inc vs fd0 fi0 fd fi :
+  check_variants inc vs fd0 fi0 = Ok (fd, fi) ->
+  length (filter d_default vs) + (if fd0 then 1 else 0) = (if fd then 1 else 0).
+Proof.
+  revert fd0 fi0; induction vs as [|v vs IH]; cbn; intros fd0 fi0 H.
+  - inversion H; subst. reflexivity.
+  - destruct (d_default v) eqn:Hd; cbn [andb] in H.
+    + destruct fd0; [discriminate|]. destruct (inc && d_incomparable v); [discriminate|].
+      apply IH in H. cbn in *. lia.
+    + destruct (inc && d_incomparable v); [discriminate|]. rewrite orb_false_r in H. apply IH in H. exact H.
+Qed.
+
+Lemma filter_indexed_length {A} (p : A -> bool) l n :
+  length (filter (fun q => p (snd q)) (indexed_from n l)) = length (filter p l).
+Proof. revert n; induction l as [|x l IH]; intros n; cbn; [reflexivity|]. destruct (p x); cbn; rewrite IH; reflexivity. Qed.
+
+Theorem default_exists {fval} (fdefault : toks -> fval) c r i w :
+  from_input c r = Ok i -> In w (in_dws i) -> dw_contains w Default = true ->
+  exists v, spec_default fdefault (in_item i) = Some v.
+Proof.
+  intros H Hw Hd. destruct (from_input_inv c r i H) as [ia [_ [Edws [_ K]]]].
+  unfold spec_default.
+  destruct (ri_kind r).
+  - destruct K as [d [_ ->]]. cbn. eexists; reflexivity.
+  - destruct K as [disc [pvs [fd [fi [_ [_ [Hc [Hm [_ ->]]]]]]]]].
+    assert (fd = true).
+    { destruct fd; [reflexivity|]. cbn in Hm. rewrite <- Edws in Hm.
+      assert (existsb (fun d => dw_contains d Default) (in_dws i) = true) by (apply existsb_exists; eauto). congruence. }
+    subst fd. apply check_variants_count in Hc. cbn in Hc.
+    cbn [default_index]. unfold indexed.
+    pose proof (filter_indexed_length d_default pvs 0) as L. rewrite Nat.add_0_r in Hc. rewrite Hc in L.
+    destruct (filter (fun p => d_default (snd p)) (indexed_from 0 pvs)) as [|[j dj] [|q l]] eqn:Ef; cbn in L; try lia.
+    assert (Hin : In (j, dj) (indexed_from 0 pvs)) by (eapply (proj1 (filter_In _ _ _)); rewrite Ef; left; reflexivity).
+    assert (Hn : nth_error pvs j = Some dj).
+    { clear - Hin. assert (G : forall l n, In (j, dj) (indexed_from n l) -> n <= j /\ nth_error l (j - n) = Some dj).
+      { induction l as [|y l IH]; cbn; intros n H; [contradiction|]. destruct H as [H|H].
+        - inversion H; subst. rewrite Nat.sub_diag. split; [lia | reflexivity].
+        - apply IH in H. destruct H as [Hle Hn]. split; [lia|]. replace (j - n) with (S (j - S n)) by lia. exact Hn. }
+      apply G in Hin. rewrite Nat.sub_0_r in Hin. tauto. }
+    cbn [item_variants]. rewrite Hn. eexists; reflexivity.
+  - destruct K as [d [_ ->]]. cbn. eexists; reflexivity.
+Qed.
+
+Lemma derives_not_union c r i w dt :
+  from_input c r = Ok i -> In w (in_dws i) -> In dt (dw_traits w) ->
+  supports_union (dt_trait dt) = false -> item_is_union (in_item i) = false.
+Proof.
+  intros H Hw Hdt S. destruct (item_is_union (in_item i)) eqn:U; [|reflexivity].
+  pose proof (union_traits c r i w dt H U Hw Hdt). congruence.
 Qed.
